@@ -218,7 +218,7 @@ def coord_bfs(depth, deadline):
         return (exp, o_m[0]), errors
 
     def canon(impl, model):
-        return model.state()
+        return (model.state(), bfs.snapshot(impl.c), impl.cb_runs, impl.cl_runs)
 
     return bfs.bfs(make, ops_of, step, canon, depth, deadline=deadline)
 
